@@ -10,7 +10,7 @@ theorem fx_plain_elem {e : Expr} (h : fx .plain e = true) : fx .elem e = true :=
   cases e with
   | starred v => simp [fx] at h
   | yield v => cases v <;> simp_all [fx]
-  | _ => simp_all [fx, XPos.notTarget, XPos.tupleElem]
+  | _ => simp_all [fx, XPos.tupleElem]
 
 theorem fx_plain_sub {e : Expr} (h : fx .plain e = true) (hp : plainIndex e = true) : fx .sub e = true := by
   cases e with
@@ -20,7 +20,7 @@ theorem fx_plain_sub {e : Expr} (h : fx .plain e = true) (hp : plainIndex e = tr
     | nil => simp [fx, fxList]
     | cons x xs => simp [plainIndex] at hp
   | yield v => cases v <;> simp_all [fx]
-  | _ => simp_all [fx, XPos.notTarget]
+  | _ => simp_all [fx]
 
 mutual
 theorem inFrag_fx : (e : Expr) → inFrag e = true → fx .plain e = true
@@ -42,15 +42,15 @@ theorem inFrag_fx : (e : Expr) → inFrag e = true → fx .plain e = true
     simp [fx, inFrag_fx v h.1.1, fx_plain_sub (inFrag_fx s h.1.2) h.2]
   | .boolOp o vs, h => by
     simp [inFrag] at h
-    simp [fx, XPos.notTarget, h.1, inFragList_fx vs h.2]
-  | .unaryOp o x, h => by simp [inFrag] at h; simp [fx, XPos.notTarget, inFrag_fx x h]
+    simp [fx, h.1, inFragList_fx vs h.2]
+  | .unaryOp o x, h => by simp [inFrag] at h; simp [fx, inFrag_fx x h]
   | .binOp l o r, h => by simp [inFrag] at h; simp [fx, inFrag_fx l h.1, inFrag_fx r h.2]
   | .compare l ops cs, h => by
     simp [inFrag] at h
-    simp [fx, XPos.notTarget, inFrag_fx l h.1.1.1, h.1.1.2, h.1.2, inFragList_fx cs h.2]
+    simp [fx, inFrag_fx l h.1.1.1, h.1.1.2, h.1.2, inFragList_fx cs h.2]
   | .ifExp t b o, h => by
     simp [inFrag] at h
-    simp [fx, XPos.notTarget, inFrag_fx t h.1.1, inFrag_fx b h.1.2, inFrag_fx o h.2]
+    simp [fx, inFrag_fx t h.1.1, inFrag_fx b h.1.2, inFrag_fx o h.2]
   | .namedExpr .., h | .lambda .., h | .listComp .., h
   | .setComp .., h | .dictComp .., h | .genExp .., h
   | .call _ _ (_ :: _), h | .formattedValue .., h | .joinedStr .., h
@@ -109,9 +109,9 @@ theorem fx_wf_aux : (e : Expr) → ∀ q, fx q e = true → wf (posOf q) e = tru
   | .name _, _, _ => by simp [wf]
   | .const _, _, _ => by simp [wf]
   | .boolOp o vs, q, h => by
-    simp [fx] at h; simp [wf, h.1.2]; simpa [posOf] using fxList_wf_aux vs .plain h.2
+    simp [fx] at h; simp [wf, h.1]; simpa [posOf] using fxList_wf_aux vs .plain h.2
   | .namedExpr t v, q, h => by
-    simp [fx] at h; simp [wf, h.1.2]; simpa [posOf] using fx_wf_aux v .plain h.2
+    simp [fx] at h; simp [wf, h.1]; simpa [posOf] using fx_wf_aux v .plain h.2
   | .binOp l o r, q, h => by
     simp [fx] at h
     have h1 := fx_wf_aux l .plain h.1
@@ -119,15 +119,15 @@ theorem fx_wf_aux : (e : Expr) → ∀ q, fx q e = true → wf (posOf q) e = tru
     simp [posOf] at h1 h2
     simp [wf, h1, h2]
   | .unaryOp o x, q, h => by
-    simp [fx] at h; simpa [wf, posOf] using fx_wf_aux x .plain h.2
+    simp [fx] at h; simpa [wf, posOf] using fx_wf_aux x .plain h
   | .lambda po ar va ko kw b, q, h => by
     simp [fx] at h
     have hb := fx_wf_aux b .plain h.2
     simp [posOf] at hb
-    simp [wf, hb, fxParams_wf_aux po h.1.1.1.1.2, fxParams_wf_aux ar h.1.1.1.2, fxParams_wf_aux ko h.1.1.2]
+    simp [wf, hb, fxParams_wf_aux po h.1.1.1.1, fxParams_wf_aux ar h.1.1.1.2, fxParams_wf_aux ko h.1.1.2]
   | .ifExp t b o, q, h => by
     simp [fx] at h
-    have h1 := fx_wf_aux t .plain h.1.1.2
+    have h1 := fx_wf_aux t .plain h.1.1
     have h2 := fx_wf_aux b .plain h.1.2
     have h3 := fx_wf_aux o .plain h.2
     simp [posOf] at h1 h2 h3
@@ -162,7 +162,7 @@ theorem fx_wf_aux : (e : Expr) → ∀ q, fx q e = true → wf (posOf q) e = tru
   | .yieldFrom x, q, h => by simp [fx] at h; simpa [wf, posOf] using fx_wf_aux x .plain h
   | .compare l ops cs, q, h => by
     simp [fx] at h
-    have h1 := fx_wf_aux l .plain h.1.1.1.2
+    have h1 := fx_wf_aux l .plain h.1.1.1
     have h2 := fxList_wf_aux cs .plain h.2
     simp [posOf] at h1 h2
     simp [wf, h1, h2, h.1.1.2, h.1.2]
